@@ -47,7 +47,7 @@ def plan(tier, seed):
     for i in range(2 if tier == "quick" else 6):
         specs.append({"name": "cli%d" % i, "kind": "cli", "shard": 90 + i, "datasets": 1 if tier == "quick" else 3, "timeout": 7000})
     for i in range(4):
-        specs.append({"name": "prog%d" % i, "kind": "prog", "shard": 110 + i, "datasets": 5 if tier == "quick" else 40, "timeout": 7000})
+        specs.append({"name": "prog%d" % i, "kind": "prog", "shard": 110 + i, "datasets": 12 if tier == "quick" else 60, "timeout": 7000})
     for i in range(4 if tier == "quick" else 8):
         specs.append({"name": "comp%d" % i, "kind": "compound", "shard": 95 + i, "instances": 6 if tier == "quick" else 40, "timeout": 7000})
     return specs
@@ -468,7 +468,7 @@ def run_prog(tier, seed, spec, col):
         root = env.workdir("c02-%s-%d" % (spec["name"], dI))
         shutil.rmtree(root, ignore_errors=True)
         n_s = int(rng.integers(2, 5))
-        ds = datasets.make_dataset(rng, root, n_samples=n_s, n_loci=int(rng.integers(2, 5)), ploidy=[2, 4], depth=(0, 7), contig_len=600,
+        ds = datasets.make_dataset(rng, root, n_samples=n_s, n_loci=int(rng.integers(2, 5)), ploidy=[2, 4], depth=(0, 12), contig_len=600,
                                    snv_range=(1, 4), hostile=0.05, err=0.02)
         use_freq = rng.random() < 0.6
         recs = []
